@@ -796,6 +796,8 @@ def run(chk, tier):
     hook = os.environ.get("VERIF_C05_CORRUPT")          # self-test: corrupt one recorded field (see SELFTEST_NOTES)
     if hook and hook != "codec":
         corrupt_trace(trace, hook)
+    if os.environ.get("VERIF_C05_KEEP"):          # development aid: keep the recorded trace
+        shutil.copy(trace, os.environ["VERIF_C05_KEEP"])
     r = vlib.tlc("TraceUnits", "TraceUnits", workers=1, env={"TRACE": trace}, timeout=900)
     chk.add_tlc("TraceUnits", r)
     if r.violated:
